@@ -3,6 +3,8 @@
 // Three kinds of cases (see checks/c19.py and lean/Drivers/C19.lean for the grammar):
 //   case <id> seq <policy> ex=<n> fs=<s0,...,s7> [p=<param>]    sequential: raw alloc/dealloc and real coroutines (kinds 0-3
 //                                                                free functions, 4-7 non-static member functions)
+//   case <id> sel                                                which argument of the coroutine selects the storage:
+//                                                                coroutine signatures as a configuration (see namespace sl)
 //   case <id> sched <nthreads>                                   reusable_storage_mtsafe, logical threads = real OS
 //                                                                threads under a baton, one step per hooked operation
 //                                                                (_busy exchange/store, operator new/delete)
@@ -238,6 +240,28 @@ public:
     T operator=(T v) noexcept { store(v); return v; }
     T raw() const noexcept { return _v.load(std::memory_order_relaxed); }
 };
+// the free-function spellings (`std::atomic_store_explicit(&a, v, o)` is defined as `a.store(v, o)`): forwarded to the members, so the
+// yield hooks fire exactly as for the member spelling
+template <typename T> T atomic_load(const verif_atomic<T> *a) noexcept { return a->load(); }
+template <typename T> T atomic_load_explicit(const verif_atomic<T> *a, memory_order o) noexcept { return a->load(o); }
+template <typename T> void atomic_store(verif_atomic<T> *a, type_identity_t<T> v) noexcept { a->store(v); }
+template <typename T> void atomic_store_explicit(verif_atomic<T> *a, type_identity_t<T> v, memory_order o) noexcept { a->store(v, o); }
+template <typename T> T atomic_exchange(verif_atomic<T> *a, type_identity_t<T> v) noexcept { return a->exchange(v); }
+template <typename T> T atomic_exchange_explicit(verif_atomic<T> *a, type_identity_t<T> v, memory_order o) noexcept { return a->exchange(v, o); }
+template <typename T> bool atomic_compare_exchange_weak(verif_atomic<T> *a, type_identity_t<T> *e, type_identity_t<T> d) noexcept {
+    return a->compare_exchange_weak(*e, d);
+}
+template <typename T> bool atomic_compare_exchange_strong(verif_atomic<T> *a, type_identity_t<T> *e, type_identity_t<T> d) noexcept {
+    return a->compare_exchange_strong(*e, d);
+}
+template <typename T> bool atomic_compare_exchange_weak_explicit(verif_atomic<T> *a, type_identity_t<T> *e, type_identity_t<T> d,
+                                                                 memory_order s, memory_order f) noexcept {
+    return a->compare_exchange_weak(*e, d, s, f);
+}
+template <typename T> bool atomic_compare_exchange_strong_explicit(verif_atomic<T> *a, type_identity_t<T> *e, type_identity_t<T> d,
+                                                                   memory_order s, memory_order f) noexcept {
+    return a->compare_exchange_strong(*e, d, s, f);
+}
 }  // namespace std
 
 #define atomic verif_atomic
@@ -256,6 +280,7 @@ struct call_rec {
     std::size_t sz = 0;
 };
 thread_local call_rec last_alloc, last_dealloc;
+thread_local const void *last_alloc_obj = nullptr;   // the storage object whose alloc() served the most recent request
 thread_local std::size_t last_req = 0;     // size of the most recent request, recorded before the policy is entered
 
 // A failed library `assert` (static_storage::alloc: frame + trailer larger than the buffer) leaves the guarded call
@@ -293,6 +318,7 @@ struct spy : St {
         last_req = sz;
         void *p = St::alloc(sz);
         last_alloc = call_rec{true, p, sz};
+        last_alloc_obj = this;
         return p;
     }
     static void dealloc(void *p, std::size_t sz) {
@@ -966,7 +992,7 @@ struct sstat : static_storage<N> {
         last_dealloc = call_rec{true, p, sz};
         cur->static_storage<N>::dealloc(p, sz);
     }
-    char *buf() { return this->_buffer; }
+    char *buf() { return this->VN_static_storage__buffer; }
 };
 
 struct ndS {
@@ -1102,6 +1128,227 @@ static void print_sizes(const char *name, A &&...a) {
     std::cout << "\n";
     pol.destroy();
 }
+
+// ------------------------------------------------------------------------------------------------
+// sel mode: WHICH argument of the coroutine selects the storage (custom_allocator_base's operator new overload set).
+// Four storage objects: 0, 1 are lvalues of exactly the Allocator type A, 2, 3 are objects of a class D that owns the
+// storage of its coroutines by inheritance (D : A).  A coroutine signature ("shape") is spelled <entry>:<pattern>:
+// entry f = free function, m = non-static member of a class unrelated to A, d = non-static member of D, l = lambda;
+// pattern = the declared parameters, S = A&, D = D&, O = something not convertible to A& (an int); every coroutine has
+// a trailing frame_rec* in addition.  Op: `coro <shape> <ids> <n> <sz> <t>`: ids = objects for `this` (entry d) and the
+// S / D parameters in order, n = size class of the locals, sz = the frame size the generator expects (unused here),
+// t = the object the caller expects to be used: the request is skipped when a frame lives in t (the one-live-frame
+// contract of reusable_storage); `fin|kill <frame>`; `end`.
+// Observation: sel=<k> is the object whose alloc() was called (by identity), at= the block the frame was placed in.
+// ------------------------------------------------------------------------------------------------
+namespace sl {
+
+using A = spy<reusable_storage>;
+static constexpr std::size_t SN0 = 24, SN1 = 400;
+
+struct D : A {
+    int salt = 7;
+    template <std::size_t N> with_allocator<A, async<void>> m(frame_rec *fr) { VH_CORO_BODY(salt) }
+    template <std::size_t N> with_allocator<A, async<void>> m_o(int, frame_rec *fr) { VH_CORO_BODY(salt) }
+    template <std::size_t N> with_allocator<A, async<void>> m_s(A &, frame_rec *fr) { VH_CORO_BODY(salt) }
+    template <std::size_t N> with_allocator<A, async<void>> m_ss(A &, A &, frame_rec *fr) { VH_CORO_BODY(salt) }
+    template <std::size_t N> with_allocator<A, async<void>> m_so(A &, int, frame_rec *fr) { VH_CORO_BODY(salt) }
+};
+struct H {
+    int salt = 7;
+    template <std::size_t N> with_allocator<A, async<void>> m_s(A &, frame_rec *fr) { VH_CORO_BODY(salt) }
+    template <std::size_t N> with_allocator<A, async<void>> m_ss(A &, A &, frame_rec *fr) { VH_CORO_BODY(salt) }
+    template <std::size_t N> with_allocator<A, async<void>> m_d(D &, frame_rec *fr) { VH_CORO_BODY(salt) }
+    template <std::size_t N> with_allocator<A, async<void>> m_ds(D &, A &, frame_rec *fr) { VH_CORO_BODY(salt) }
+    template <std::size_t N> with_allocator<A, async<void>> m_sd(A &, D &, frame_rec *fr) { VH_CORO_BODY(salt) }
+};
+template <std::size_t N> with_allocator<A, async<void>> f_s(A &, frame_rec *fr) { VH_CORO_BODY(7) }
+template <std::size_t N> with_allocator<A, async<void>> f_ss(A &, A &, frame_rec *fr) { VH_CORO_BODY(7) }
+template <std::size_t N> with_allocator<A, async<void>> f_d(D &, frame_rec *fr) { VH_CORO_BODY(7) }
+template <std::size_t N> with_allocator<A, async<void>> f_ds(D &, A &, frame_rec *fr) { VH_CORO_BODY(7) }
+template <std::size_t N> with_allocator<A, async<void>> f_dss(D &, A &, A &, frame_rec *fr) { VH_CORO_BODY(7) }
+template <std::size_t N> with_allocator<A, async<void>> f_sd(A &, D &, frame_rec *fr) { VH_CORO_BODY(7) }
+template <std::size_t N> with_allocator<A, async<void>> f_os(int, A &, frame_rec *fr) { VH_CORO_BODY(7) }
+template <std::size_t N> with_allocator<A, async<void>> f_od(int, D &, frame_rec *fr) { VH_CORO_BODY(7) }
+template <std::size_t N> with_allocator<A, async<void>> f_so(A &, int, frame_rec *fr) { VH_CORO_BODY(7) }
+template <std::size_t N> static auto lam_s() {
+    return [](A &, frame_rec *fr) -> with_allocator<A, async<void>> { VH_CORO_BODY(7) };
+}
+template <std::size_t N> static auto lam_ds() {
+    return [](D &, A &, frame_rec *fr) -> with_allocator<A, async<void>> { VH_CORO_BODY(7) };
+}
+
+struct env {
+    holder<A> p[2];
+    holder<D> d[2];
+    H host;
+    A &S(int id) { return *p[id & 1]; }
+    D &Dd(int id) { return *d[id & 1]; }
+    int which(const void *o) {
+        for (int i = 0; i < 2; ++i) {
+            if (p[i].p && o == static_cast<const void *>(p[i].p)) return i;
+            if (d[i].p && o == static_cast<const void *>(static_cast<A *>(d[i].p))) return 2 + i;
+        }
+        return -1;
+    }
+};
+
+static const char *const SHAPES[] = {"f:S", "f:SS", "f:D", "f:DS", "f:DSS", "f:SD", "f:OS", "f:OD", "f:SO", "m:S", "m:SS", "m:D",
+                                     "m:DS", "m:SD", "d:", "d:O", "d:S", "d:SS", "d:SO", "l:S", "l:DS"};
+
+// number of object ids the shape consumes
+static std::size_t arity(const std::string &shape) {
+    std::size_t n = shape[0] == 'd' ? 1 : 0;
+    for (std::size_t i = 2; i < shape.size(); ++i) n += shape[i] != 'O';
+    return n;
+}
+
+#define VH_SEL(NAME, ...) return n ? std::optional<async<void>>(NAME<SN1>(__VA_ARGS__)) : std::optional<async<void>>(NAME<SN0>(__VA_ARGS__))
+static std::optional<async<void>> make(env &e, const std::string &sh, const std::vector<int> &a, int n, frame_rec *f) {
+    if (sh == "f:S") VH_SEL(f_s, e.S(a[0]), f);
+    if (sh == "f:SS") VH_SEL(f_ss, e.S(a[0]), e.S(a[1]), f);
+    if (sh == "f:D") VH_SEL(f_d, e.Dd(a[0]), f);
+    if (sh == "f:DS") VH_SEL(f_ds, e.Dd(a[0]), e.S(a[1]), f);
+    if (sh == "f:DSS") VH_SEL(f_dss, e.Dd(a[0]), e.S(a[1]), e.S(a[2]), f);
+    if (sh == "f:SD") VH_SEL(f_sd, e.S(a[0]), e.Dd(a[1]), f);
+    if (sh == "f:OS") VH_SEL(f_os, 5, e.S(a[0]), f);
+    if (sh == "f:OD") VH_SEL(f_od, 5, e.Dd(a[0]), f);
+    if (sh == "f:SO") VH_SEL(f_so, e.S(a[0]), 5, f);
+    if (sh == "m:S") VH_SEL(e.host.m_s, e.S(a[0]), f);
+    if (sh == "m:SS") VH_SEL(e.host.m_ss, e.S(a[0]), e.S(a[1]), f);
+    if (sh == "m:D") VH_SEL(e.host.m_d, e.Dd(a[0]), f);
+    if (sh == "m:DS") VH_SEL(e.host.m_ds, e.Dd(a[0]), e.S(a[1]), f);
+    if (sh == "m:SD") VH_SEL(e.host.m_sd, e.S(a[0]), e.Dd(a[1]), f);
+    if (sh == "d:") VH_SEL(e.Dd(a[0]).m, f);
+    if (sh == "d:O") VH_SEL(e.Dd(a[0]).m_o, 5, f);
+    if (sh == "d:S") VH_SEL(e.Dd(a[0]).m_s, e.S(a[1]), f);
+    if (sh == "d:SS") VH_SEL(e.Dd(a[0]).m_ss, e.S(a[1]), e.S(a[2]), f);
+    if (sh == "d:SO") VH_SEL(e.Dd(a[0]).m_so, e.S(a[1]), 5, f);
+    if (sh == "l:S") {
+        if (n) { auto l = lam_s<SN1>(); return std::optional<async<void>>(l(e.S(a[0]), f)); }
+        auto l = lam_s<SN0>(); return std::optional<async<void>>(l(e.S(a[0]), f));
+    }
+    if (sh == "l:DS") {
+        if (n) { auto l = lam_ds<SN1>(); return std::optional<async<void>>(l(e.Dd(a[0]), e.S(a[1]), f)); }
+        auto l = lam_ds<SN0>(); return std::optional<async<void>>(l(e.Dd(a[0]), e.S(a[1]), f));
+    }
+    return std::nullopt;
+}
+#undef VH_SEL
+
+static std::vector<int> ids_of(const std::string &s) {
+    std::vector<int> r;
+    if (s == "-") return r;
+    std::size_t i = 0;
+    while (i <= s.size()) {
+        std::size_t j = s.find(',', i);
+        if (j == std::string::npos) j = s.size();
+        r.push_back(std::atoi(s.substr(i, j - i).c_str()) & 3);
+        i = j + 1;
+    }
+    return r;
+}
+
+static void run(const std::vector<std::string> &) {
+    hk::reset();
+    extra_reg::reset();
+    seq_state st;
+    env e;
+    for (int i = 0; i < 2; ++i) { e.p[i].make(); e.d[i].make(); }
+    std::vector<int> fobj;       // frame -> object that served it
+    bool poisoned = false;       // two live frames in one block: nothing of this case may run any more
+    std::string line;
+    while (std::getline(std::cin, line)) {
+        auto w = vh::split(line);
+        if (w.empty()) continue;
+        if (w[0] == "end") {
+            if (!poisoned)
+                for (auto &f : st.frames)
+                    if (f->live) (void)op_free<A>(st, f->id, "fin");
+            for (int i = 0; i < 2; ++i) e.p[i].destroy();
+            for (int i = 0; i < 2; ++i) e.d[i].destroy();
+            std::size_t leaked;
+            { hk::guard g; leaked = hk::live->size(); }
+            out_line("end live=" + std::to_string(leaked));
+            return;
+        }
+        std::string head = "skip";
+        if (poisoned) {
+            head = "poisoned";
+        } else if (w[0] == "coro" && w.size() >= 6) {
+            const std::string &sh = w[1];
+            bool known = false;
+            for (auto s : SHAPES) known = known || sh == s;
+            std::vector<int> a = ids_of(w[2]);
+            int n = std::atoi(w[3].c_str()) & 1;
+            int t = std::atoi(w[5].c_str()) & 3;
+            bool occupied = false;
+            for (auto &f : st.frames) occupied = occupied || (f->live && fobj[f->id] == t);
+            if (known && a.size() == arity(sh) && !occupied) {
+                // distinct objects in the S positions / D positions are not required: the same object may be passed twice
+                auto fr = std::make_unique<frame_rec>();
+                frame_rec &f = *fr;
+                f.id = st.frames.size();
+                f.pat = static_cast<unsigned char>(0xA0 + (f.id * 7) % 0x5f);
+                f.coro = true;
+                last_alloc = call_rec{};
+                last_alloc_obj = nullptr;
+                std::ostringstream os;
+                {
+                    std::optional<async<void>> c = make(e, sh, a, n, &f);
+                    if (last_alloc.seen) { f.ptr = static_cast<char *>(last_alloc.ptr); f.sz = last_alloc.sz; }
+                    int k = last_alloc.seen ? e.which(last_alloc_obj) : -1;
+                    os << "coro#" << f.id << " sz=" << f.sz << " sel=" << (k < 0 ? std::string("?") : std::to_string(k));
+                    if (!last_alloc.seen) os << " noalloc";
+                    bool busy = false;
+                    for (auto &o : st.frames) busy = busy || (o->live && fobj[o->id] == k);
+                    f.live = true;
+                    bool ov = overlaps(st, f);
+                    os << " at=" << where(st, f.ptr);
+                    if (busy || ov) {
+                        // the storage handed its block to a second frame while the first one is alive: the older frame is
+                        // damaged (or its block was released); the new coroutine is destroyed unstarted, nothing else runs
+                        poisoned = true;
+                        f.live = false;
+                        os << (busy ? " BUSY" : "") << (ov ? " OVERLAP" : "");
+                    } else {
+                        (void)c->detach();
+                        bool in = f.local && reinterpret_cast<char *>(f.local) >= f.ptr &&
+                                  reinterpret_cast<char *>(f.local) + f.local_n <= f.ptr + f.sz;
+                        os << " in=" << in;
+                    }
+                    fobj.push_back(k);
+                }
+                st.frames.push_back(std::move(fr));
+                head = os.str();
+            }
+        } else if ((w[0] == "fin" || w[0] == "kill") && w.size() >= 2) {
+            head = op_free<A>(st, std::strtoul(w[1].c_str(), nullptr, 10), w[0] == "kill" ? "kill" : "fin");
+        }
+        out_line(head);
+    }
+}
+
+// frame sizes of every shape in both size classes (the generator needs them)
+static void print_sizes() {
+    hk::reset();
+    extra_reg::reset();
+    env e;
+    for (int i = 0; i < 2; ++i) { e.p[i].make(); e.d[i].make(); }
+    std::cout << "selsizes";
+    for (auto s : SHAPES)
+        for (int n = 0; n < 2; ++n) {
+            frame_rec f;
+            last_alloc = call_rec{};
+            std::vector<int> a(arity(s), 0);
+            { std::optional<async<void>> c = make(e, s, a, n, &f); }
+            std::cout << " " << s << "/" << n << "=" << last_alloc.sz;
+        }
+    std::cout << "\n";
+    for (int i = 0; i < 2; ++i) { e.p[i].destroy(); e.d[i].destroy(); }
+}
+
+}  // namespace sl
 
 // ------------------------------------------------------------------------------------------------
 // sched mode: logical threads on one reusable_storage_mtsafe, one step per hooked operation
@@ -1361,6 +1608,10 @@ static void run_stress(const std::vector<std::string> &w) {
 int main(int argc, char **argv) {
     hk::reset();
     extra_reg::reset();
+    if (argc > 1 && std::string(argv[1]) == "--selsizes") {
+        sl::print_sizes();
+        return 0;
+    }
     if (argc > 1 && std::string(argv[1]) == "--sizes") {
         seq_state dummy;
         print_sizes<default_storage>("default");
@@ -1378,6 +1629,7 @@ int main(int argc, char **argv) {
         if (w.empty() || w[0] != "case") continue;
         std::cout << "case " << w[1] << "\n";
         if (w.size() >= 4 && w[2] == "seq") run_seq(w);
+        else if (w.size() >= 3 && w[2] == "sel") sl::run(w);
         else if (w.size() >= 4 && w[2] == "sched") run_sched(w);
         else if (w.size() >= 4 && w[2] == "stress") run_stress(w);
         else { std::cout << "bad-kind\n"; drain_case(); }
